@@ -270,7 +270,7 @@ func scopeDepth(f *ssa.Function) (map[ssa.Instruction]uint16, func(int) (int, in
 		return (delta+1)*3 + def
 	}
 	dec := func(st int) (int, int) { return st/3 - 1, st % 3 }
-	ts := &typestate{fn: f, nstate: 15, init: enc(0, 0)}
+	ts := &typestate{fn: f, nstate: 15, init: enc(0, 0), successOnly: true}
 	ts.trans = func(in ssa.Instruction, st int) int {
 		delta, def := dec(st)
 		name := func(cc *ssa.CallCommon) string {
@@ -398,186 +398,332 @@ func c03Flags(c *Ctx, pp, tag string) {
 			return false
 		}
 		fa, ok := u.X.(*ssa.FieldAddr)
-		return ok && fieldName(fa) == name && strings.HasSuffix(namedOf(fa.X.Type()), ".Task")
+		return ok && fieldName(fa) == name && taskField(fa)
 	}
-	// summaries of boolean helpers that combine the flag primitives (e.g. `func loopDone(ctx) bool { if forbreak(ctx)
-	// { return true }; forcontinue(ctx); return ctx.StmtRetrun() }`): computed by the same dataflow on the helper's
-	// body, once per entry state; sm[state][answer] = state after (-1: that answer is impossible from that state)
-	type flagSummary [3][2]int
+	// flagOf: the address is &ctx.loopBreak (1) / &ctx.loopContinue (2), else 0
+	flagOf := func(v ssa.Value) int {
+		fa, ok := v.(*ssa.FieldAddr)
+		if !ok || !taskField(fa) {
+			return 0
+		}
+		switch fieldName(fa) {
+		case "loopBreak":
+			return 1
+		case "loopContinue":
+			return 2
+		}
+		return 0
+	}
+	// takeFlag shape: g(p *bool) bool { if *p { *p = false; return true }; return false } — a flag consumed through
+	// its address (forbreak / forcontinue with the field handed in instead of the task)
+	takeMemo := map[*ssa.Function]bool{}
+	isTakeFlag := func(g *ssa.Function) bool {
+		if g == nil || len(g.Blocks) == 0 || len(g.Params) != 1 || g.Signature.Results().Len() != 1 {
+			return false
+		}
+		if v, ok := takeMemo[g]; ok {
+			return v
+		}
+		p := g.Params[0]
+		ok := g.Signature.Results().At(0).Type().String() == "bool" && p.Type().String() == "*bool"
+		nTrue := 0
+		allInstrs(g, func(in ssa.Instruction) {
+			switch x := in.(type) {
+			case *ssa.Store:
+				cv, isC := x.Val.(*ssa.Const)
+				if x.Addr != ssa.Value(p) || !isC || cv.Value == nil || cv.Value.ExactString() != "false" {
+					ok = false
+				}
+			case *ssa.Call, *ssa.Go, *ssa.Defer:
+				ok = false
+			case *ssa.Return:
+				cv, isC := x.Results[0].(*ssa.Const)
+				if !isC || cv.Value == nil {
+					ok = false
+					return
+				}
+				under := false
+				for _, ec := range controlling(x.Block()) {
+					if u, isU := ec.Cond.(*ssa.UnOp); isU && u.Op == token.MUL && u.X == ssa.Value(p) && ec.Pol {
+						under = true
+					}
+				}
+				if (cv.Value.ExactString() == "true") != under {
+					ok = false
+				}
+				if under {
+					nTrue++
+					// the flag is cleared before this return
+					cleared := false
+					allInstrs(g, func(i2 ssa.Instruction) {
+						if st, isS := i2.(*ssa.Store); isS && st.Addr == ssa.Value(p) && precedes(st, x) {
+							cleared = true
+						}
+					})
+					if !cleared {
+						ok = false
+					}
+				}
+			}
+		})
+		takeMemo[g] = ok && nTrue > 0
+		return takeMemo[g]
+	}
+	// consumes: the call is forbreak(ctx) / takeFlag(&ctx.loopBreak) (1), forcontinue(ctx) / takeFlag(&ctx.loopContinue) (2)
+	consumes := func(call *ssa.Call) int {
+		g := call.Call.StaticCallee()
+		if g == nil {
+			return 0
+		}
+		if g == forbreak && forbreak != nil {
+			return 1
+		}
+		if g == forcontinue && forcontinue != nil {
+			return 2
+		}
+		if isTakeFlag(g) && len(call.Call.Args) == 1 {
+			return flagOf(call.Call.Args[0])
+		}
+		return 0
+	}
+	// Summaries of same-package helpers (functions, methods, local closures) that touch the protocol — they run a
+	// body, consume or test a flag, poll — computed by the same dataflow on the helper's body, once per entry state:
+	// out[state][answer] = set of states after (answer: the helper's bool result, when it has one, else both alike).
+	type flagSummary struct {
+		out     [3][2]uint16
+		boolIdx int // index of the bool result, -1 if none
+	}
 	summaries := map[*ssa.Function]*flagSummary{}
-	var baseTrans func(in ssa.Instruction, st int) int
-	var baseEdge func(b *ssa.BasicBlock, si int, st int) int
+	relevantMemo := map[*ssa.Function]bool{}
+	var flagRelevant func(h *ssa.Function, depth int) bool
+	flagRelevant = func(h *ssa.Function, depth int) bool {
+		if h == nil || len(h.Blocks) == 0 || depth > 3 {
+			return false
+		}
+		if v, ok := relevantMemo[h]; ok {
+			return v
+		}
+		relevantMemo[h] = false
+		rel := false
+		allInstrs(h, func(in ssa.Instruction) {
+			switch x := in.(type) {
+			case *ssa.Call:
+				g := x.Call.StaticCallee()
+				if g == nil {
+					return
+				}
+				if g == runStmts || g == stmtRet || consumes(x) != 0 {
+					rel = true
+				} else if g == pk.Func("RunStmt") || g == pk.Func("RunExpr") {
+					// the statement/expression dispatcher: evaluating a complete statement or an expression leaves the
+					// flags as they are (what this rule establishes for the loop statements, and only they clear flags)
+				} else if (g.Pkg == pk || (g.Parent() != nil && g.Parent().Pkg == pk)) && flagRelevant(g, depth+1) {
+					rel = true
+				}
+			case *ssa.FieldAddr:
+				if flagOf(x) != 0 {
+					rel = true
+				}
+			}
+		})
+		relevantMemo[h] = rel
+		return rel
+	}
+	var transSet func(in ssa.Instruction, st int) uint16
+	var edgeSet func(b *ssa.BasicBlock, si int, st int) uint16
 	var helperSummary func(h *ssa.Function) (*flagSummary, bool)
 	helperSummary = func(h *ssa.Function) (*flagSummary, bool) {
-		if h == nil || h.Pkg != pk || len(h.Blocks) == 0 || h == forbreak || h == forcontinue || h == stmtRet || h == runStmts {
+		if h == nil || len(h.Blocks) == 0 || h == forbreak || h == forcontinue || h == stmtRet || h == runStmts || isTakeFlag(h) || h == pk.Func("RunStmt") || h == pk.Func("RunExpr") {
+			return nil, false
+		}
+		if h.Pkg != pk && (h.Parent() == nil || h.Parent().Pkg != pk) {
 			return nil, false
 		}
 		if sm, ok := summaries[h]; ok {
 			return sm, sm != nil
 		}
-		summaries[h] = nil
-		res := h.Signature.Results()
-		if res.Len() != 1 || res.At(0).Type().String() != "bool" || baseTrans == nil {
+		if !flagRelevant(h, 0) {
 			return nil, false
 		}
-		sm := &flagSummary{}
-		valid := true
+		summaries[h] = nil
+		sm := &flagSummary{boolIdx: -1}
+		res := h.Signature.Results()
+		for i := 0; i < res.Len(); i++ {
+			if res.At(i).Type().String() == "bool" && sm.boolIdx < 0 {
+				sm.boolIdx = i
+			}
+		}
 		for s0 := 0; s0 < 3; s0++ {
-			outs := [2]map[int]bool{{}, {}}
-			hts := &typestate{fn: h, nstate: 3, init: s0, trans: baseTrans, edge: baseEdge}
+			hts := &typestate{fn: h, nstate: 3, init: s0, transSet: transSet, edgeSet: edgeSet, successOnly: true}
 			before := hts.run()
 			allInstrs(h, func(in ssa.Instruction) {
 				ret, ok := in.(*ssa.Return)
-				if !ok || ret.Block() == h.Recover {
+				if !ok || ret.Block() == h.Recover || (len(ret.Results) > 0 && retError(ret) == "nonnil") {
 					return
 				}
 				for st := 0; st < 3; st++ {
 					if before[in]&(1<<uint(st)) == 0 {
 						continue
 					}
-					switch v := ret.Results[0].(type) {
+					bit := uint16(1) << uint(st)
+					if sm.boolIdx < 0 {
+						sm.out[s0][0] |= bit
+						sm.out[s0][1] |= bit
+						continue
+					}
+					switch v := ret.Results[sm.boolIdx].(type) {
 					case *ssa.Const:
 						if v.Value != nil && v.Value.ExactString() == "true" {
-							outs[1][st] = true
+							sm.out[s0][1] |= bit
 						} else {
-							outs[0][st] = true
+							sm.out[s0][0] |= bit
 						}
 					case *ssa.Call:
 						if v.Call.StaticCallee() == stmtRet {
-							outs[1][st] = true
+							sm.out[s0][1] |= bit
 							if st == 0 {
-								outs[0][0] = true
+								sm.out[s0][0] |= bit
 							}
 							break
 						}
-						outs[0][st], outs[1][st] = true, true
+						sm.out[s0][0] |= bit
+						sm.out[s0][1] |= bit
 					default:
-						outs[0][st], outs[1][st] = true, true
+						sm.out[s0][0] |= bit
+						sm.out[s0][1] |= bit
 					}
 				}
 			})
-			for ans := 0; ans < 2; ans++ {
-				switch len(outs[ans]) {
-				case 0:
-					sm[s0][ans] = -1
-				case 1:
-					for k := range outs[ans] {
-						sm[s0][ans] = k
-					}
-				default:
-					valid = false
-				}
-			}
 		}
 		if os.Getenv("PLVERIF_DEBUG") != "" {
-			fmt.Fprintf(os.Stderr, "flag summary %s: %v valid=%v\n", h.Name(), *sm, valid)
-		}
-		if !valid {
-			return nil, false
+			fmt.Fprintf(os.Stderr, "flag summary %s: %v\n", h.Name(), *sm)
 		}
 		summaries[h] = sm
 		r.Fn(relName(h))
 		return sm, true
+	}
+	// the summarised call behind an If condition: the call itself (bool helper) or the bool member of its tuple
+	condCall := func(cond ssa.Value) (*ssa.Call, *flagSummary) {
+		var call *ssa.Call
+		idx := 0
+		switch x := cond.(type) {
+		case *ssa.Call:
+			call = x
+		case *ssa.Extract:
+			call, _ = x.Tuple.(*ssa.Call)
+			idx = x.Index
+		}
+		if call == nil {
+			return nil, nil
+		}
+		if sm, has := helperSummary(call.Call.StaticCallee()); has && sm.boolIdx == idx {
+			return call, sm
+		}
+		return call, nil
+	}
+	usedAsCond := func(call *ssa.Call) bool {
+		// a bool helper whose only use is an If condition in the same block: its effect is applied on the edges,
+		// where the answer is known
+		refs := call.Referrers()
+		if refs == nil || len(*refs) != 1 {
+			return false
+		}
+		iff, ok := (*refs)[0].(*ssa.If)
+		return ok && iff.Block() == call.Block()
+	}
+	transSet = func(in ssa.Instruction, st int) uint16 {
+		same := uint16(1) << uint(st)
+		switch x := in.(type) {
+		case *ssa.Store:
+			if cv, ok := x.Val.(*ssa.Const); ok && cv.Value != nil && cv.Value.ExactString() == "false" {
+				if fl := flagOf(x.Addr); fl != 0 && st == fl {
+					return 1
+				}
+			}
+		case *ssa.Call:
+			g := x.Call.StaticCallee()
+			if g == runStmts && g != nil {
+				return 7 // a body may end with either flag raised
+			}
+			if k := consumes(x); k != 0 && !usedAsCond(x) {
+				if st == k {
+					return 1
+				}
+				return same
+			}
+			if sm, has := helperSummary(g); has {
+				if sm.boolIdx == 0 && g.Signature.Results().Len() == 1 && usedAsCond(x) {
+					return same
+				}
+				return sm.out[st][0] | sm.out[st][1]
+			}
+		}
+		return same
+	}
+	edgeSet = func(b *ssa.BasicBlock, si int, st int) uint16 {
+		same := uint16(1) << uint(st)
+		iff, ok := b.Instrs[len(b.Instrs)-1].(*ssa.If)
+		if !ok {
+			return same
+		}
+		switch {
+		case isFlagLoad(iff.Cond, "loopBreak"):
+			if (si == 0) != (st == 1) {
+				return 0
+			}
+		case isFlagLoad(iff.Cond, "loopContinue"):
+			if (si == 0) != (st == 2) {
+				return 0
+			}
+		default:
+			call, sm := condCall(iff.Cond)
+			if call == nil {
+				return same
+			}
+			ans := 1 - si // successor 0 is the true edge
+			if sm != nil {
+				if _, isCall := iff.Cond.(*ssa.Call); isCall && usedAsCond(call) {
+					return sm.out[st][ans] // effect applied here, with the entry state known
+				}
+				// the effect was applied at the call; keep what is compatible with this answer
+				var compat uint16
+				for s0 := 0; s0 < 3; s0++ {
+					compat |= sm.out[s0][ans]
+				}
+				return same & compat
+			}
+			if _, isCall := iff.Cond.(*ssa.Call); !isCall {
+				return same
+			}
+			if k := consumes(call); k != 0 && usedAsCond(call) {
+				// true iff that flag was set; clears it
+				if si == 0 {
+					if st != k {
+						return 0
+					}
+					return 1
+				}
+				if st == k {
+					return 0
+				}
+				return same
+			}
+			if call.Call.StaticCallee() == stmtRet && stmtRet != nil {
+				// false edge: neither flag is set
+				if si == 1 && st != 0 {
+					return 0
+				}
+			}
+		}
+		return same
 	}
 	for _, name := range []string{"RunForStmt", "RunForInStmt"} {
 		f := pk.Func(name)
 		if f == nil {
 			continue
 		}
-		ts := &typestate{fn: f, nstate: 3, init: 0}
-		// a body call may leave any of the three states; encoded by a nondeterministic transfer: handled by seeding below
-		bodyCalls := map[ssa.Instruction]bool{}
-		allInstrs(f, func(in ssa.Instruction) {
-			if call, ok := in.(*ssa.Call); ok && call.Call.StaticCallee() == runStmts {
-				bodyCalls[in] = true
-			}
-		})
-		ts.trans = func(in ssa.Instruction, st int) int {
-			switch x := in.(type) {
-			case *ssa.Store:
-				if fa, ok := x.Addr.(*ssa.FieldAddr); ok && strings.HasSuffix(namedOf(fa.X.Type()), ".Task") {
-					if cv, ok := x.Val.(*ssa.Const); ok && cv.Value != nil && cv.Value.ExactString() == "false" {
-						if fieldName(fa) == "loopBreak" && st == 1 {
-							return 0
-						}
-						if fieldName(fa) == "loopContinue" && st == 2 {
-							return 0
-						}
-					}
-				}
-			case *ssa.Call:
-				if x.Call.StaticCallee() == forcontinue && forcontinue != nil && st == 2 {
-					return 0
-				}
-			}
-			return st
-		}
-		ts.edge = func(b *ssa.BasicBlock, si int, st int) int {
-			iff, ok := b.Instrs[len(b.Instrs)-1].(*ssa.If)
-			if !ok {
-				return st
-			}
-			switch {
-			case isFlagLoad(iff.Cond, "loopBreak"):
-				if (si == 0) != (st == 1) {
-					return -1
-				}
-			case isFlagLoad(iff.Cond, "loopContinue"):
-				if (si == 0) != (st == 2) {
-					return -1
-				}
-			default:
-				if call, ok := iff.Cond.(*ssa.Call); ok {
-					if sm, has := helperSummary(call.Call.StaticCallee()); has {
-						// a helper that combines the primitives: (state before, answer) -> state after
-						out := sm[st][1]
-						if si == 1 {
-							out = sm[st][0]
-						}
-						return out
-					}
-					switch call.Call.StaticCallee() {
-					case forbreak:
-						if forbreak == nil {
-							break
-						}
-						// true iff break was set; clears it
-						if si == 0 {
-							if st != 1 {
-								return -1
-							}
-							return 0
-						}
-						if st == 1 {
-							return -1
-						}
-					case stmtRet:
-						// false edge: neither flag is set
-						if si == 1 && st != 0 {
-							return -1
-						}
-					}
-				}
-			}
-			return st
-		}
-		baseTrans, baseEdge = ts.trans, ts.edge
-		// run with body calls as generators: emulate by running three times with forced post-body state and merging
-		merged := map[ssa.Instruction]uint16{}
-		for forced := 0; forced < 3; forced++ {
-			fcopy := forced
-			base := ts.trans
-			ts2 := &typestate{fn: f, nstate: 3, init: 0, edge: ts.edge}
-			ts2.trans = func(in ssa.Instruction, st int) int {
-				if bodyCalls[in] {
-					return fcopy
-				}
-				return base(in, st)
-			}
-			for k, v := range ts2.run() {
-				merged[k] |= v
-			}
-		}
+		ts := &typestate{fn: f, nstate: 3, init: 0, transSet: transSet, edgeSet: edgeSet, successOnly: true}
+		merged := ts.run()
 		names := []string{"FF", "break set", "continue set"}
 		render := func(m uint16) string {
 			var s []string
@@ -602,9 +748,7 @@ func c03Flags(c *Ctx, pp, tag string) {
 					}
 					for st := 0; st < 3; st++ {
 						if mb&(1<<uint(st)) != 0 {
-							if n := ts.edge(la, si, st); n >= 0 {
-								m |= 1 << uint(n)
-							}
+							m |= edgeSet(la, si, st)
 						}
 					}
 				}
@@ -692,7 +836,7 @@ func c03Flags(c *Ctx, pp, tag string) {
 					return
 				}
 				fa, ok := s.Addr.(*ssa.FieldAddr)
-				if !ok || fieldName(fa) != fl || !strings.HasSuffix(namedOf(fa.X.Type()), ".Task") {
+				if !ok || fieldName(fa) != fl || !taskField(fa) {
 					return
 				}
 				cv, isC := s.Val.(*ssa.Const)
@@ -770,11 +914,11 @@ func c03Iter(c *Ctx, pp, tag string) {
 			for _, in := range b.Instrs {
 				switch x := in.(type) {
 				case *ssa.Call:
-					if x.Call.StaticCallee() == runStmts {
+					if runsBodyOnce(x.Call.StaticCallee(), runStmts, 0) {
 						bodies++
 						body = x
 					}
-					if x.Call.StaticCallee() != nil && x.Call.StaticCallee().Name() == "Clear" {
+					if alwaysClears(x.Call.StaticCallee(), 0) {
 						clears++
 					}
 				case *ssa.Next:
@@ -800,7 +944,7 @@ func c03Iter(c *Ctx, pp, tag string) {
 		if body != nil {
 			skip = reachAvoid(body, body, func(in ssa.Instruction) bool {
 				call, ok := in.(*ssa.Call)
-				return ok && call.Call.StaticCallee() != nil && call.Call.StaticCallee().Name() == "Clear"
+				return ok && alwaysClears(call.Call.StaticCallee(), 0)
 			})
 		}
 		r.Ob("ITER", fmt.Sprintf("%s.RunForInStmt loop #%d clears the loop scope every iteration", tag, li+1), t.Pos(firstPos(l.Header)), clears >= 1 && body != nil && !skip,
@@ -1215,4 +1359,94 @@ func aliasBeforeUse(f *ssa.Function) (bool, string) {
 		return false, "no parameter is compared with `_`"
 	}
 	return true, fmt.Sprintf("%d key parameter(s) aliased before every use", n)
+}
+
+// runsBodyOnce: g is the statement-list executor itself, or a same-package helper / method / local closure that
+// executes a body exactly once per call: it holds exactly one call of the executor (or of such a helper, three
+// levels), outside any loop of its own, and the only conditions on the way to that call are nil tests (an absent
+// body).
+func runsBodyOnce(g, runStmts *ssa.Function, depth int) bool {
+	if g == nil {
+		return false
+	}
+	if g == runStmts {
+		return true
+	}
+	if g.Pkg != runStmts.Pkg && (g.Parent() == nil || g.Parent().Pkg != runStmts.Pkg) {
+		return false
+	}
+	if len(g.Blocks) == 0 || depth >= 3 {
+		return false
+	}
+	var sites []*ssa.Call
+	allInstrs(g, func(in ssa.Instruction) {
+		if c2, ok := in.(*ssa.Call); ok && c2.Call.StaticCallee() != g && runsBodyOnce(c2.Call.StaticCallee(), runStmts, depth+1) {
+			sites = append(sites, c2)
+		}
+	})
+	if len(sites) != 1 {
+		return false
+	}
+	for _, l := range naturalLoops(g) {
+		if l.Blocks[sites[0].Block()] {
+			return false
+		}
+	}
+	for _, ec := range controlling(sites[0].Block()) {
+		bo, ok := ec.Cond.(*ssa.BinOp)
+		if !ok || !isNilConst(bo.Y) || (bo.Op != token.EQL && bo.Op != token.NEQ) {
+			return false
+		}
+	}
+	return true
+}
+
+// alwaysClears: g is (*Stack).Clear, or a same-package helper every return of which is dominated by a call that
+// always clears (two levels).
+func alwaysClears(g *ssa.Function, depth int) bool {
+	if g == nil {
+		return false
+	}
+	if g.Name() == "Clear" && g.Signature.Recv() != nil {
+		return true
+	}
+	if len(g.Blocks) == 0 || depth >= 2 || !inModule(g) {
+		return false
+	}
+	var sites []*ssa.BasicBlock
+	allInstrs(g, func(in ssa.Instruction) {
+		if c2, ok := in.(*ssa.Call); ok && c2.Call.StaticCallee() != g && alwaysClears(c2.Call.StaticCallee(), depth+1) {
+			sites = append(sites, c2.Block())
+		}
+	})
+	if len(sites) == 0 {
+		return false
+	}
+	for _, b := range g.Blocks {
+		if _, isRet := b.Instrs[len(b.Instrs)-1].(*ssa.Return); !isRet {
+			continue
+		}
+		ok := false
+		for _, s := range sites {
+			if s.Dominates(b) {
+				ok = true
+			}
+		}
+		if !ok {
+			return false
+		}
+	}
+	return true
+}
+
+// taskField: the field address is a field of the task — directly, or of a struct embedded in it (the per-run flags
+// grouped into a small struct).
+func taskField(fa *ssa.FieldAddr) bool {
+	if strings.HasSuffix(namedOf(fa.X.Type()), ".Task") {
+		return true
+	}
+	if in, ok := fa.X.(*ssa.FieldAddr); ok {
+		return strings.HasSuffix(namedOf(in.X.Type()), ".Task")
+	}
+	return false
 }
